@@ -19,11 +19,11 @@ func installHook(g *gen) {
 			ptrIDs[id] = n
 		}
 		switch event {
-		case "BorrowInts":
+		case "BorrowInts", "BorrowHeader", "BorrowOpt", "BorrowDense":
 			if id != 0 {
 				g.pool = append(g.pool, []int{0, size, n})
 			}
-		case "ReturnInts":
+		case "ReturnInts", "ReturnHeader", "ReturnOpt", "ReturnTensor":
 			if id != 0 {
 				g.pool = append(g.pool, []int{1, size, n})
 			}
